@@ -22,6 +22,12 @@ def pairs(rnd, thorough):
             (b"", b"\x00"), (b"ab", b"ab\x00"), (b"a\x00b", b"ab"), (b"a\x00b", b"a\x00c"), (base, base + b" "),
             (base, base + b"\n"), (b"A" * 65535, b"A" * 65534 + b"B"), (b"A" * 255, b"A" * 256), (b"A" * 256, b"A" * 255),
             (b"A" * 255 + b"B", b"A" * 255 + b"C"), (b"\xff" * 16, b"\xff" * 15 + b"\xfe"), (b"pw", b"wp")]
+    # what a normalising, pre-hashing or truncating implementation would confuse (both directions)
+    longpw = b"A long pass-phrase, longer than any hash block: " + b"correct horse battery staple " * 6
+    for p2 in related_passwords(longpw):
+        out.append((longpw, p2)); out.append((p2, longpw))
+    for p2 in related_passwords(base)[:8]:
+        out.append((base, p2))
     return out
 
 
